@@ -26,8 +26,6 @@ def classify(cmd_id, text, stderr, timed_out=False):
     """The recorded class a crash belongs to, or None.  `text` is the mutated input (bytes)."""
     if b"ParseIntError" in stderr and has_out_of_range_numeral(text):
         return "F3a"
-    if (b"attempt to negate with overflow" in stderr and b"9223372036854775808" in text and cmd_id.startswith("verify")):
-        return "F3b"
     if (b"attempt to add with overflow" in stderr and b"tau_star.rs" in stderr
             and any(USIZE_MAX - 4096 < int(m.group(1)) <= USIZE_MAX for m in VNUM.finditer(text))):
         return "F11"
@@ -39,14 +37,10 @@ def classify(cmd_id, text, stderr, timed_out=False):
 DEEP_TERM = re.compile(rb"(?:-\(?|\(|\d+\s*[-+*]\s*\(|\s){100,}")
 
 
-PLACEHOLDER_PREFIX = re.compile(rb"^\s*input\s*:\s*_*[a-z]")
-
-
 def classify_inprocess(kind, text):
-    """parse_any has no stderr: a panic while PARSING is in class F3a iff the input has such a numeral;
-    F14: PlaceholderDeclaration::from_str panics whenever a prefix of the input is a placeholder declaration."""
-    if kind == "fol.PlaceholderDeclaration" and PLACEHOLDER_PREFIX.match(text):
-        return "F14"
+    """parse_any has no stderr: a panic while PARSING is in class F3a iff the input has such a numeral.
+    (F14 - PlaceholderDeclaration::from_str panicked on every input - is repaired in /repo: a panic of that
+    parser is a VIOLATION like any other; its regression cases are in corpus/parse_any_expect.txt.)"""
     return "F3a" if has_out_of_range_numeral(text) else None
 
 
